@@ -109,6 +109,13 @@ check('C07', 'exploration', 'model-level sweep of every junction\'s pdd row thro
       'Pmin/Preq/exponent in any combination; reservoir-head sweeps on rigs and random networks check the reported demands against the same curve.',
       'Band width 0.05 m as documented; ranges narrower than two bands are a separate bucket (known finding).', 'DESIGN.md#C07')
 
+check('C04', 'exploration', "online trace checker: every solved instant of report_timestep='ALL' runs x every control target vs a control-timeline reference model, cross-validated against EPANET 2.2 on the report grid",
+      'Schedules of simple AT TIME / AT CLOCKTIME controls and rules with sim-time / clock-time conditions (ranges, AND/OR, ELSE, priorities) on three '
+      'host networks, any start_clocktime, hydraulic/rule steps, up to 3 days: (a) every instant at which the schedule changes something is a solved '
+      'instant (partial step), (b) at every solved instant every target has the value of the last event at or before it, (c) same-instant conflicts '
+      'resolve by priority; a point where the reference model and EPANET disagree is never held against WNTR.',
+      'Trusted: libepanet 2.2 shipped with the repository; the timeline model encodes EPANET conventions (rules from the first rule step on, "=" at the first evaluation at or after the instant).', 'DESIGN.md#C04')
+
 NOT_YET = 'monitor not built yet in this commit (planned in DESIGN.md section 4)'
 ALL = ['C%02d' % i for i in range(1, 21)]
 
